@@ -90,7 +90,7 @@ ExpectedRound(g) == SymRound(CurState(g), (128 * g) % KeyBits)
 ExpWords == [w \in 0..3 |-> SubSeq(exp, 32 * w + 1, 32 * w + 32)]
 
 Init == /\ exp = ExpectedRound(0)
-        /\ pc = 1 /\ R = InitRegs /\ M = InitMem /\ Z = FALSE /\ zsym = FALSE /\ sar = 0 /\ round = 0 /\ halted = FALSE /\ steps = 0
+        /\ pc = 1 /\ R = InitRegs /\ M = InitMem /\ Z = FALSE /\ zsym = TRUE /\ sar = -1 /\ round = 0 /\ halted = FALSE /\ steps = 0
         /\ TLCSet(1, 0) /\ TLCSet(2, 0)
 
 \* cut: every expected word must be held somewhere; all holders are re-labelled with fresh variables
@@ -156,7 +156,8 @@ DoAddi == IF ~IsC(Reg(I.a)) THEN Fail("arithmetic on state or key bits") /\ Stop
                /\ zsym' = (IF I.setf = 1 THEN FALSE ELSE zsym)
                /\ NextPc /\ UNCHANGED <<M, sar, round, halted, exp>>
 DoSsai == sar' = I.imm /\ NextPc /\ UNCHANGED <<R, M, Z, zsym, round, halted, exp>>
-DoSrc == /\ R' = SetReg(I.d, S(SubSeq(ShrW(Sym(Reg(I.b)) \o Sym(Reg(I.a)), sar), 1, 32)))
+DoSrc == IF sar < 0 THEN Fail("funnel shift before any ssai: the result depends on what the caller left in SAR") /\ Stop ELSE
+         /\ R' = SetReg(I.d, S(SubSeq(ShrW(Sym(Reg(I.b)) \o Sym(Reg(I.a)), sar), 1, 32)))
          /\ NextPc /\ UNCHANGED <<M, Z, zsym, sar, round, halted, exp>>
 
 \* a conditional branch on the (concrete) round counter ends a round: cut, then branch
